@@ -73,8 +73,8 @@ struct C19 : Scenario {
             if (r.chance(0.25)) { long ns = derive(c).laststep; c.steps_per_rev = r.uniform(0.05, 0.4); c.rotations = (ns - 0.5) / derive(c).steps; c.rf_mod_freq = std::round(derive(c).fs * r.uniform(0.3, 3)); }
             else if (r.chance(0.3)) {   // long run: more than 4096 steps
                 c.grid = 12; c.steps = r.range(40, 200);
-                long nsteps = r.pick(std::vector<long>{r.range(4200, 9000), r.range(4097, 4200), r.range(16385, 18000), r.range(16385, 16500), tier == "quick" ? r.range(8193, 9000) : r.range(32769, 34000), tier == "quick" ? r.range(16385, 17000) : r.range(65537, 66000)});
-                c.rotations = (nsteps - 0.5) / (double)c.steps; c.outstep = r.pick(std::vector<long>{0, 1000, 4096, 5000}); c.saveps = 0;
+                long nsteps = r.pick(std::vector<long>{r.range(4200, 9000), r.range(4097, 4200), r.range(16385, 18000), r.range(16385, 16500), tier == "quick" ? r.range(8193, 9000) : r.range(32769, 34000), tier == "quick" ? r.range(16385, 17000) : r.range(65537, 66000), r.range(65537, 70000)});
+                c.rotations = (nsteps - 0.5) / (double)c.steps; c.outstep = r.pick(std::vector<long>{0, 1000, 4096, 5000, nsteps, nsteps - 1, 65537, 16384}); c.saveps = 0;   // (also a single flush for the whole run: every record waits in the map until then)
                 c.currents = {1e-3}; c.tdamp = 0; c.renorm = 0;
             }
         } else { // prog_zero
@@ -230,8 +230,9 @@ struct C19 : Scenario {
             // column 0 - phi_s = A sin(2 pi f_mod dt k), column 1 == 1
             float A = (float)std::max(0.0, cfg.rf_mod_ampl / 360.0 * 2 * M_PI);
             double w = 2 * M_PI * (cfg.rf_mod_freq * d.dt);
-            float phis = cfg.linearRF ? 0.0f : std::asin((float)d.V0 / (float)d.V_eff);
-            // sinusoidal model is built with V_RF = V_eff (see main): syncphase = asin(V0/V_eff) in float
+            float phis = cfg.linearRF ? 0.0f : std::asin((float)d.V0 / (float)cfg.VRF);
+            // the synchronous phase of the sinusoidal model is asin(V0/V_RF), as main() itself prints it (the program used to hand the
+            // effective voltage to the map, fix 99a9e36; this oracle had copied that)
             for (unsigned k = 0; k < d.laststep; k++) {
                 o.checks++;
                 float expect = phis + 0.0f + (float)(A * std::sin(w * (double)k));
